@@ -198,6 +198,7 @@ type Sim struct {
 	OkWeight    int
 	Draining    bool
 	OnRelease   func(c *Call, o Outcome) // observation hook, called by the scheduler before a parked call resumes
+	cbLog       []cbRec
 }
 
 func NewSim(t *testing.T, plan *Plan) *Sim {
